@@ -175,6 +175,17 @@ CHECKS = {
              "moving the unit to another running stream, and thousands of concurrent/self requests racing with yields where "
              "no recorded request was lost and the unit ran exactly once to completion",
         ref="DESIGN.md §5 C13"),
+    "C14": dict(
+        technique="runtime monitoring: instrumented user-defined pools (both definition APIs) whose unit objects carry a state "
+                  "machine, magic word and quarantine; create/free/push/pop ledgers per pool; unit<->thread lookups from the "
+                  "running unit and from other streams while units are mapped/unmapped in colliding hash buckets; "
+                  "exactly-once ledger; delay injection; ASan/LSan/TSan",
+        category="exploration",
+        text="held on the executions produced: thousands of unit objects per run created exactly once per pool association and "
+             "freed exactly once (never used after free_unit), every ABT_unit_get_thread/ABT_thread_get_unit lookup consistent "
+             "including under 3-bucket hash collisions with tombstone reuse and long chains, every work unit ran exactly once "
+             "under FIFO/LIFO/random pop policies",
+        ref="DESIGN.md §5 C14"),
 }
 
 
